@@ -475,6 +475,38 @@ impl C02 {
     /// A balanced token list; shapes: empty, one token, one group, several groups, nested
     /// groups, leading space, delimiter tokens inside braces.
     fn gen_balanced(rng: &mut Rng, depth: u32, out: &mut Vec<T>) {
+        // the size dimension: now and then a long list (tens to hundreds of tokens, mostly
+        // tokens that are not delimiter material, so that it is really bound as one argument)
+        // or a deep nest
+        if depth <= 1 && rng.chance(1, 40) {
+            const FILL: &[T] = &[T::Ch('b'), T::Ch('['), T::Ch(']'), T::Ch('1'), T::Cs('x'), T::Sp, T::Ch('b')];
+            if rng.chance(1, 2) {
+                let n = *rng.pick(&[20u64, 40, 62, 63, 64, 65, 100, 127, 128, 129, 255, 256, 257, 400]) + rng.below(3);
+                for _ in 0..n {
+                    if rng.chance(1, 12) {
+                        out.extend([T::Bg, *rng.pick(LITS), T::Eg]);
+                    } else {
+                        out.push(*rng.pick(FILL));
+                    }
+                }
+            } else {
+                let k = *rng.pick(&[8u64, 15, 16, 17, 31, 32, 33, 64, 65, 100]);
+                for _ in 0..k {
+                    out.push(T::Bg);
+                    if rng.chance(1, 4) {
+                        out.push(*rng.pick(FILL));
+                    }
+                }
+                out.push(*rng.pick(LITS));
+                for _ in 0..k {
+                    if rng.chance(1, 4) {
+                        out.push(*rng.pick(FILL));
+                    }
+                    out.push(T::Eg);
+                }
+            }
+            return;
+        }
         let n = match rng.below(10) {
             0 => 0,
             1..=4 => 1,
@@ -690,7 +722,7 @@ impl C02 {
         }
         // long structured delimiters (a^k b^m, (ab)^k a, (aab)^k, random) with arguments glued
         // from several random factors of the delimiter
-        let n = if thorough { 40_000 } else { 5_000 };
+        let n = if thorough { 40_000 } else { 3_500 };
         for _ in 0..n {
             let d: Vec<T> = match rng.below(5) {
                 0 => {
@@ -1115,8 +1147,16 @@ impl C02 {
                 (false, false, false) => "boundary:file+pending+lexer",
             });
         }
-        let global = r.def_toks.len() % 2 == 1;
-        let def_cmd = if global { "\\gdef" } else { "\\def" };
+        // every way of writing the definition command (prefix.rs glue included); which one is a
+        // function of the case so that replays are stable
+        let def_cmd = ["\\def", "\\gdef", "\\long\\def", "\\global\\def", "\\long\\gdef", "\\global\\long\\def"]
+            [(r.def_toks.len() + 3 * input.len()) % 6];
+        out.tag(format!("def-command:{}", def_cmd.replace('\\', "/")));
+        // a global definition made inside a group and called after it
+        let grouped = r.def_res == "ok" && (def_cmd.contains("gdef") || def_cmd.contains("global")) && (r.def_toks.len() + input.len()) % 2 == 0;
+        if grouped {
+            out.tag("def-command:global-inside-a-group");
+        }
         let mut def_src = format!("{def_cmd}{name}");
         if !needs_symbol {
             if let Some(T::Ch(c)) = r.def_toks.first() {
@@ -1129,6 +1169,9 @@ impl C02 {
             render_wrapped(&r.def_toks, &mut def_src);
         } else {
             render(&r.def_toks, &mut def_src);
+        }
+        if grouped {
+            def_src = format!("{{{def_src}}}");
         }
         let mut call_src = String::from(name);
         if !needs_symbol {
@@ -1428,7 +1471,9 @@ impl Property for C02 {
         ];
         let alpha = [T::Bg, T::Eg, T::Ch('a'), T::Ch('.'), T::Sp];
         let max_len = if ctx.thorough { 6 } else { 5 };
-        for m in macros.iter() {
+        for (mi, m) in macros.iter().enumerate() {
+            // quick: the longest inputs only for the first six macros
+            let max_len = if !ctx.thorough && mi >= 6 { max_len - 1 } else { max_len };
             for len in 0..=max_len {
                 let total = (alpha.len() as u64).pow(len as u32);
                 for idx in 0..total {
@@ -1471,7 +1516,7 @@ impl Property for C02 {
                 v.push(format!("r {} I a {{ 1 }} 2 a", words(&ts)).replace("  ", " "));
             }
         }
-        let (n_s, n_r, n_w) = if ctx.thorough { (150_000, 30_000, 60_000) } else { (14_000, 3_000, 6_000) };
+        let (n_s, n_r, n_w) = if ctx.thorough { (150_000, 30_000, 60_000) } else { (10_000, 3_000, 4_000) };
         let mut r = rng.fork();
         for _ in 0..n_s {
             v.push(Self::gen_spec(&mut r).line());
@@ -1514,7 +1559,7 @@ impl Property for C02 {
             }
         }
         let mut r = rng.fork();
-        for _ in 0..(if ctx.thorough { 40_000 } else { 4_000 }) {
+        for _ in 0..(if ctx.thorough { 40_000 } else { 3_000 }) {
             v.push(Self::gen_expandable(&mut r).line_k("x"));
         }
         // the call at the end of an \\input file, its arguments in the enclosing source:
@@ -1544,7 +1589,7 @@ impl Property for C02 {
             }
         }
         let mut r = rng.fork();
-        for _ in 0..(if ctx.thorough { 40_000 } else { 4_000 }) {
+        for _ in 0..(if ctx.thorough { 40_000 } else { 3_000 }) {
             v.push(Self::gen_file(&mut r));
         }
         // raw: render a structured case, then damage the definition text
@@ -1702,6 +1747,23 @@ impl Property for C02 {
                 if c.delims.iter().any(|d| d.len() >= 5) {
                     out.tag("delimiter:length>=5");
                 }
+                if c.input.len() >= 64 {
+                    out.tag("input:length>=64");
+                }
+                {
+                    let (mut d, mut m) = (0i64, 0i64);
+                    for t in &c.input {
+                        match t {
+                            T::Bg => d += 1,
+                            T::Eg => d -= 1,
+                            _ => {}
+                        }
+                        m = m.max(d);
+                    }
+                    if m >= 16 {
+                        out.tag("input:nesting>=16");
+                    }
+                }
                 self.compare(&mut out, &r, &c.input, Some(&sec), drv, mode);
             }
             "r" => {
@@ -1775,6 +1837,41 @@ impl Property for C02 {
             }
             "s" | "w" | "x" => {
                 let c = SpecCase::parse(rest);
+                // long inputs first: cut whole groups, or one pair of braces around a group
+                if c.input.len() > 12 {
+                    let mut stack = vec![];
+                    let mut pairs = vec![];
+                    for (k, t) in c.input.iter().enumerate() {
+                        match t {
+                            T::Bg => stack.push(k),
+                            T::Eg => {
+                                if let Some(o) = stack.pop() {
+                                    pairs.push((o, k));
+                                }
+                            }
+                            _ => {}
+                        }
+                    }
+                    pairs.sort_by_key(|(o, k)| std::cmp::Reverse(k - o));
+                    for (o, k) in pairs.iter().take(40) {
+                        let mut h = c.clone();
+                        h.input.drain(*o..=*k);
+                        v.push(h.line_k(cmd));
+                        let mut h = c.clone();
+                        h.input.remove(*k);
+                        h.input.remove(*o);
+                        v.push(h.line_k(cmd));
+                    }
+                    for chunk in [c.input.len() / 2, c.input.len() / 4, 8] {
+                        let mut at = 0;
+                        while at + chunk <= c.input.len() && v.len() < 200 {
+                            let mut h = c.clone();
+                            h.input.drain(at..at + chunk);
+                            v.push(h.line_k(cmd));
+                            at += chunk;
+                        }
+                    }
+                }
                 // drop single input tokens, body items, prefix tokens, delimiter tokens
                 if c.input.len() > 1 {
                     let mut h = c.clone();
